@@ -37,7 +37,77 @@ impl<K> FxLinkedHashSet<K> {
     pub fn clear(&mut self)
         ensures final(self)@.len() == 0
     { unimplemented!() }
+
+    /// hashlink 0.12 `LinkedHashSet::insert`: "If the set did not have this value present, inserts it at the
+    /// *back* of the internal linked list and returns true, otherwise it moves the existing value to the
+    /// *back* of the internal linked list and returns false."
+    #[verifier::external_body]
+    pub fn insert(&mut self, k: K) -> (r: bool)
+        ensures
+            final(self)@ == moved_to_back(old(self)@, k),
+            r == !old(self)@.contains(k),
+    { unimplemented!() }
+
+    /// hashlink 0.12 `LinkedHashSet::replace`: "If a previous value existed, returns the replaced value.  In
+    /// this case, the value's position in the internal linked list is *not* changed."
+    #[verifier::external_body]
+    pub fn replace(&mut self, k: K) -> (r: Option<K>)
+        ensures
+            old(self)@.contains(k) ==> final(self)@ == old(self)@ && r.is_some(),
+            !old(self)@.contains(k) ==> final(self)@ == old(self)@.push(k) && r.is_none(),
+    { unimplemented!() }
+
+    /// hashlink 0.12 `LinkedHashSet::get_or_insert`: an existing value keeps its position.
+    #[verifier::external_body]
+    pub fn get_or_insert(&mut self, k: K) -> (r: &K)
+        ensures
+            old(self)@.contains(k) ==> final(self)@ == old(self)@,
+            !old(self)@.contains(k) ==> final(self)@ == old(self)@.push(k),
+    { unimplemented!() }
+
+    #[verifier::external_body]
+    pub fn remove(&mut self, k: &K) -> (r: bool)
+        ensures
+            final(self)@ == without(old(self)@, *k),
+            r == old(self)@.contains(*k),
+    { unimplemented!() }
+
+    #[verifier::external_body]
+    pub fn to_back(&mut self, k: &K) -> (r: bool)
+        ensures
+            old(self)@.contains(*k) ==> final(self)@ == moved_to_back(old(self)@, *k) && r,
+            !old(self)@.contains(*k) ==> final(self)@ == old(self)@ && !r,
+    { unimplemented!() }
+
+    #[verifier::external_body]
+    pub fn to_front(&mut self, k: &K) -> (r: bool)
+        ensures
+            old(self)@.contains(*k) ==> final(self)@ == seq![*k] + without(old(self)@, *k) && r,
+            !old(self)@.contains(*k) ==> final(self)@ == old(self)@ && !r,
+    { unimplemented!() }
+
+    #[verifier::external_body]
+    pub fn pop_back(&mut self) -> (r: Option<K>)
+        ensures
+            old(self)@.len() == 0 ==> r.is_none() && final(self)@ == old(self)@,
+            old(self)@.len() > 0 ==> r == Some(old(self)@.last()) && final(self)@ == old(self)@.drop_last(),
+    { unimplemented!() }
+
+    #[verifier::external_body]
+    pub fn contains(&self, k: &K) -> (r: bool)
+        ensures r == self@.contains(*k)
+    { unimplemented!() }
+
+    #[verifier::external_body]
+    pub fn is_empty(&self) -> (r: bool)
+        ensures r == (self@.len() == 0)
+    { unimplemented!() }
 }
+
+/// `s` without (every occurrence of) `k`, order kept.
+pub open spec fn without<K>(s: Seq<K>, k: K) -> Seq<K> { s.filter(|x: K| x != k) }
+/// The recency order after `k` has been used: `k` is the most recent entry, the others keep their order.
+pub open spec fn moved_to_back<K>(s: Seq<K>, k: K) -> Seq<K> { without(s, k).push(k) }
 
 #[verifier::external_body]
 #[verifier::reject_recursive_types(T)]
@@ -47,6 +117,13 @@ impl<T> Mutex<T> {
     #[verifier::external_body]
     pub fn get_mut(&mut self) -> (r: &mut T)
         ensures *r == old(self)@, *final(r) == final(self)@
+    { unimplemented!() }
+}
+impl<K> Mutex<FxLinkedHashSet<K>> {
+    /// `Mutex::default()` of an empty set.
+    #[verifier::external_body]
+    pub fn default() -> (r: Self)
+        ensures r@@.len() == 0
     { unimplemented!() }
 }
 
@@ -62,6 +139,35 @@ impl Lru {
         match self.capacity { Some(c) => Some(c.get() as int), None => None }
     }
     pub closed spec fn order(&self) -> Seq<Id> { self.set@@ }
+
+    //@sig new: fn new(cap: usize) -> Self
+    //@ob id=V-LRU-3 kind=V props=C05 fn=Lru::new
+    //@ pre: any capacity
+    //@ post: capacity == (0 => disabled, c => Some(c)); nothing is scheduled for eviction
+    fn new(cap: usize) -> (r: Self)
+        ensures r.cap() == cap_of(cap), r.order().len() == 0,
+    {@@BODY:new@@}
+
+    //@sig insert: fn insert(&self, id: Id)
+    //@ob id=V-LRU-4 kind=V props=C05 fn=Lru::insert
+    //@ pre: any recency order, any id (extraction rewrites `&self` + `self.set.lock()` to `&mut self` + `self.set.get_mut()`: the lock is what makes the access exclusive)
+    //@ post: id becomes the most recently used entry; every other entry keeps its relative position; capacity unchanged
+    fn insert(&mut self, id: Id)
+        ensures
+            final(self).cap() == old(self).cap(),
+            final(self).order() == moved_to_back(old(self).order(), id),
+    {@@BODY:insert@@}
+
+    //@sig record_use: fn record_use(&self, id: Id)
+    //@ob id=V-LRU-5 kind=V props=C05 fn=Lru::record_use
+    //@ pre: any state, any id
+    //@ post: eviction disabled (capacity 0) => nothing is recorded; otherwise id becomes the most recently used entry and the others keep their order (so "least recently requested" in V-LRU-1 is about requests, not about first insertion)
+    fn record_use(&mut self, id: Id)
+        ensures
+            final(self).cap() == old(self).cap(),
+            old(self).cap().is_none() ==> final(self).order() == old(self).order(),
+            old(self).cap().is_some() ==> final(self).order() == moved_to_back(old(self).order(), id),
+    {@@BODY:record_use@@}
 
     //@sig for_each_evicted: fn for_each_evicted(&mut self, mut cb: impl FnMut(Id))
     //@ob id=V-LRU-1 kind=V props=C05 fn=Lru::for_each_evicted
@@ -92,6 +198,31 @@ impl Lru {
             capacity == 0 ==> final(self).order().len() == 0,
             capacity != 0 ==> final(self).order() == old(self).order(),
     {@@BODY:set_capacity@@}
+}
+
+//@ob id=L-LRU-2 kind=L props=C05 fn=Lru::record_use,Lru::for_each_evicted
+//@ pre: the postconditions of V-LRU-5 and V-LRU-1 composed: order s, a use of id, then an eviction pass that keeps a suffix of length m >= 1
+//@ post: the entry used last is kept, and it is kept exactly once (a request never leaves a stale duplicate that could be evicted in its place)
+proof fn lemma_last_used_is_kept(s: Seq<Id>, id: Id, m: int)
+    requires 1 <= m <= moved_to_back(s, id).len(),
+    ensures ({
+        let t = moved_to_back(s, id);
+        let kept = t.subrange(t.len() - m, t.len() as int);
+        &&& kept.last() == id
+        &&& forall|i: int| 0 <= i < kept.len() - 1 ==> kept[i] != id
+    })
+{
+    let w = without(s, id);
+    let t = moved_to_back(s, id);
+    assert(t.len() == w.len() + 1);
+    assert forall|i: int| 0 <= i < w.len() implies w[i] != id by {
+        broadcast use vstd::seq_lib::group_filter_ensures;   // every element of a filter satisfies the predicate
+    }
+    let kept = t.subrange(t.len() - m, t.len() as int);
+    assert forall|i: int| 0 <= i < kept.len() - 1 implies kept[i] != id by {
+        assert(kept[i] == t[t.len() - m + i]);
+        assert(t[t.len() - m + i] == w[t.len() - m + i]);
+    }
 }
 
 //@ob id=L-LRU-1 kind=L props=C05 fn=Lru::for_each_evicted
